@@ -31,7 +31,8 @@ def parse_dates(doc):
     :return: doc with all RFC 1123 datetime fields replaced by datetime objects.
     :rtype: dict
     """
-    tz = pytz.timezone(doc["timezone"])
+    # A projected query may omit the timezone field; such documents are converted to UTC.
+    tz = pytz.timezone(doc["timezone"]) if "timezone" in doc else pytz.utc
     for field in doc:
         if isinstance(doc[field], str):
             try:
